@@ -92,6 +92,37 @@ func isWordByte(c byte) bool {
 var globs = []string{"a*", "*z", "a*z", "*ab*", "{ab,xy}*", "**=1", "*"} // "?" is left out: its treatment of multi-byte characters by the third-party glob library has no obvious translation
 var regexes = []string{"^a", "z$", "^[a-c]+$", "[0-9]{2,}", "^(ab|xy)", "a.c", "^$"}
 
+// genRegex: a pattern from the fixed pool, or built from a small grammar of Go's syntax ("uses Go's regular expression"
+// is all the documentation says): optional anchors around literal characters (some of them escaped metacharacters), '.',
+// bracket expressions, alternations and quantifiers. Patterns that consist of literal characters only - unanchored,
+// anchored on one side, anchored on both - are a family of their own: they are where a matcher is tempted to avoid the
+// regular expression engine.
+func genRegex(t *rapid.T) string {
+	switch rapid.IntRange(0, 3).Draw(t, "reKind") {
+	case 0:
+		return rapid.SampledFrom(regexes).Draw(t, "regex")
+	case 1:
+		lit := rapid.SampledFrom([]string{"a", "ab", "error", "x", "abc", `a\.b`, `\[a\]`, "é", "a b", "0"}).Draw(t, "reLit")
+		pre := rapid.SampledFrom([]string{"", "^", "^", `\A`}).Draw(t, "rePre")
+		post := rapid.SampledFrom([]string{"", "$", "$", `\z`}).Draw(t, "rePost")
+		return pre + lit + post
+	}
+	var b strings.Builder
+	if rapid.Bool().Draw(t, "reAnchorL") {
+		b.WriteString("^")
+	}
+	n := rapid.IntRange(1, 4).Draw(t, "reAtoms")
+	for i := 0; i < n; i++ {
+		atom := rapid.SampledFrom([]string{"a", "b", "ab", "x", "0", ".", `\.`, "[a-c]", "[0-9]", "[^a]", "(ab|xy)", "(a|)", `\d`, `\s`, "é"}).Draw(t, "reAtom")
+		b.WriteString(atom)
+		b.WriteString(rapid.SampledFrom([]string{"", "", "", "+", "*", "?", "{2}", "{1,2}"}).Draw(t, "reQuant"))
+	}
+	if rapid.Bool().Draw(t, "reAnchorR") {
+		b.WriteString("$")
+	}
+	return b.String()
+}
+
 func genCond(t *rapid.T) Cond {
 	c := Cond{Field: genField.Draw(t, "cfield")}
 	c.Op = rapid.SampledFrom([]string{"str", "str-eq", "str-not", "str-start", "str-end", "str-contain", "str-any", "len-gt", "len-lt", "glob", "regex"}).Draw(t, "op")
@@ -102,7 +133,7 @@ func genCond(t *rapid.T) Cond {
 	case "glob":
 		c.Arg = rapid.SampledFrom(globs).Draw(t, "glob")
 	case "regex":
-		c.Arg = rapid.SampledFrom(regexes).Draw(t, "regex")
+		c.Arg = genRegex(t)
 	default:
 		c.Arg = genCfgString(1, 5).Draw(t, "arg")
 	}
@@ -318,7 +349,7 @@ func Literals(steps []Step) (lits []string, lens []int) {
 				fmt.Sscan(c.Arg, &n)
 				lens = append(lens, n)
 			case "glob", "regex":
-				lits = append(lits, strings.Trim(c.Arg, "^$*?{}"))
+				lits = append(lits, strings.Trim(strings.NewReplacer(`\A`, "", `\z`, "", `\.`, ".", `\[`, "[", `\]`, "]").Replace(c.Arg), "^$*?{}"))
 			case "str-any":
 			default:
 				lits = append(lits, c.Arg)
